@@ -67,6 +67,13 @@ def _body(fn):
     return b
 
 
+def _is_logging(st):
+    """`self._logger.debug(...)` / `self.logger.info(...)` / `logging.…(...)` statements do not matter here"""
+    if not (isinstance(st, ast.Expr) and isinstance(st.value, ast.Call) and isinstance(st.value.func, ast.Attribute)):
+        return False
+    return "logg" in ast.unparse(st.value.func.value).lower()
+
+
 def _module_consts(tree):
     out = {}
     for n in tree.body:
@@ -132,9 +139,12 @@ def _state_chain(stmts, hops_alias_ok):
 
 
 # ---- find_circuits -------------------------------------------------------------------------------------------------
+_CVAR = ["c"]      # name of the comprehension variable of find_circuits (set by translate())
+
+
 def _c_attr(e):
     """attribute of the comprehension variable"""
-    if isinstance(e, ast.Attribute) and isinstance(e.value, ast.Name) and e.value.id == "c":
+    if isinstance(e, ast.Attribute) and isinstance(e.value, ast.Name) and e.value.id == _CVAR[0]:
         return e.attr
     return None
 
@@ -283,12 +293,12 @@ def translate() -> tuple[str, dict]:
             or not (isinstance(stc.args.defaults[0], ast.Constant) and isinstance(stc.args.defaults[0].value, int)):
         raise TranslatorError("set_tunnel_community: unexpected signature")
     want = ["self.tunnel_community = tunnel_community", "self.hops = hops"]
-    if [ast.unparse(s) for s in _body(stc)] != want:
+    if [ast.unparse(s) for s in _body(stc) if not _is_logging(s)] != want:
         raise TranslatorError("set_tunnel_community no longer just stores its two arguments")
     out += ["/-- set_tunnel_community(tunnel_community, hops=N) -/",
             f"def defaultTcHops : Nat := {stc.args.defaults[0].value}"]
     sa = _fn(tep, "set_anonymity")
-    if [ast.unparse(s) for s in _body(sa)] != ["self.settings[prefix] = enable"]:
+    if [ast.unparse(s) for s in _body(sa) if not _is_logging(s)] != ["self.settings[prefix] = enable"]:
         raise TranslatorError("set_anonymity no longer just stores `self.settings[prefix] = enable`")
 
     send = _fn(tep, "send")
@@ -390,10 +400,10 @@ def translate() -> tuple[str, dict]:
         raise TranslatorError("find_circuits is no longer a single list comprehension")
     lc = fb[0].value
     g = lc.generators[0]
-    if not (len(lc.generators) == 1 and isinstance(lc.elt, ast.Name) and lc.elt.id == "c"
-            and isinstance(g.target, ast.Name) and g.target.id == "c"
-            and ast.unparse(g.iter) == "self.circuits.values()" and not g.is_async):
+    if not (len(lc.generators) == 1 and isinstance(lc.elt, ast.Name) and isinstance(g.target, ast.Name)
+            and lc.elt.id == g.target.id and ast.unparse(g.iter) == "self.circuits.values()" and not g.is_async):
         raise TranslatorError("find_circuits: comprehension is not `[c for c in self.circuits.values() if ...]`")
+    _CVAR[0] = g.target.id
     cond = " && ".join(_find_cond(i) for i in g.ifs) if g.ifs else "true"
     out += ["/-- translated from the filter of TunnelCommunity.find_circuits -/",
             "def findPred (ctype : Option CType) (state : Option CState) (exitFlags : Option (List Nat))",
